@@ -196,3 +196,75 @@ Proof.
   - rewrite has_dotdot_dd. destruct (dd p) eqn:E; [|reflexivity]. rewrite (components_dotdot p E) in H. discriminate H.
   - intros r ->. discriminate H.
 Qed.
+
+(* ---------- canonical spelling of a name (the overlay's key) ---------- *)
+
+Definition no_slash (p : bytes) : bool := forallb (fun c => negb (c =? 47)) p.
+Definition piece_ok (p : bytes) : Prop := p <> [] /\ p <> [46] /\ no_slash p = true.
+
+Lemma split_slash_aux_no_slash : forall p cur, no_slash cur = true -> Forall (fun x => no_slash x = true) (split_slash_aux p cur).
+Proof.
+  assert (Hrev : forall l, no_slash l = true -> no_slash (rev l) = true).
+  { intros l H. unfold no_slash in *. rewrite forallb_forall in *. intros x Hx. apply H. apply in_rev. assumption. }
+  induction p as [|c r IH]; intros cur Hc; cbn [split_slash_aux].
+  - constructor; [apply Hrev; assumption|constructor].
+  - destruct (c =? 47) eqn:E.
+    + constructor; [apply Hrev; assumption|apply IH; reflexivity].
+    + apply IH. cbn [no_slash forallb]. rewrite E. exact Hc.
+Qed.
+
+Lemma normalize_pieces k : Forall piece_ok (normalize k).
+Proof.
+  unfold normalize. pose proof (split_slash_aux_no_slash k [] eq_refl) as H.
+  induction H as [|x l Hx Hl IH]; cbn [filter]; [constructor|].
+  destruct (negb (is_nil x) && negb (bytes_eqb x [46])) eqn:E; [|exact IH].
+  constructor; [|exact IH]. apply andb_true_iff in E. destruct E as [E1 E2]. repeat split.
+  - intros ->. discriminate E1.
+  - intros ->. cbn in E2. discriminate E2.
+  - exact Hx.
+Qed.
+
+Lemma split_slash_aux_app p : no_slash p = true -> forall s cur,
+  split_slash_aux (p ++ s) cur = split_slash_aux s (rev p ++ cur).
+Proof.
+  induction p as [|c r IH]; intros H s cur; [reflexivity|].
+  cbn [no_slash forallb] in H. apply andb_true_iff in H. destruct H as [Hc Hr]. apply negb_true_iff in Hc.
+  cbn [app split_slash_aux]. rewrite Hc. rewrite (IH Hr). cbn [rev]. rewrite <- app_assoc. reflexivity.
+Qed.
+
+Lemma normalize_join : forall ps, Forall piece_ok ps -> normalize (join_slash ps) = ps.
+Proof.
+  unfold normalize. induction ps as [|p r IH]; intros H; [reflexivity|].
+  inversion H as [|? ? (Hne & Hnd & Hns) Hr]; subst.
+  assert (Hkeep : negb (is_nil p) && negb (bytes_eqb p [46]) = true).
+  { apply andb_true_iff. split.
+    - destruct p; [contradiction Hne; reflexivity|reflexivity].
+    - destruct (bytes_eqb p [46]) eqn:E; [apply bytes_eqb_eq in E; contradiction|reflexivity]. }
+  destruct r as [|q r'].
+  - cbn [join_slash]. rewrite <- (app_nil_r p) at 1. rewrite (split_slash_aux_app p Hns). cbn [split_slash_aux filter].
+    rewrite app_nil_r, rev_involutive, Hkeep. reflexivity.
+  - cbn [join_slash]. rewrite (split_slash_aux_app p Hns). cbn [app split_slash_aux]. rewrite N.eqb_refl.
+    rewrite app_nil_r, rev_involutive. cbn [filter]. rewrite Hkeep. f_equal. apply IH. assumption.
+Qed.
+
+Theorem normalize_canon k : normalize (canon k) = normalize k.
+Proof. unfold canon. apply normalize_join, normalize_pieces. Qed.
+
+Theorem canon_idem k : canon (canon k) = canon k.
+Proof. unfold canon at 1. rewrite normalize_canon. reflexivity. Qed.
+
+(* on canonical names the path a name denotes determines the name *)
+Theorem canon_injective a c : canon a = a -> canon c = c -> normalize a = normalize c -> a = c.
+Proof. intros Ha Hc H. rewrite <- Ha, <- Hc. unfold canon. rewrite H. reflexivity. Qed.
+
+Lemma canon_not_absolute k r : canon k <> 47 :: r.
+Proof.
+  unfold canon. pose proof (normalize_pieces k) as H. destruct (normalize k) as [|p ps]; [discriminate|].
+  inversion H as [|? ? (Hne & _ & Hns) _]; subst.
+  destruct p as [|c p']; [contradiction Hne; reflexivity|].
+  cbn [no_slash forallb] in Hns. apply andb_true_iff in Hns. destruct Hns as [Hc _]. apply negb_true_iff in Hc.
+  destruct ps; cbn [join_slash app]; intros [= -> _]; discriminate Hc.
+Qed.
+
+Lemma has_dotdot_canon k : has_dotdot (canon k) = has_dotdot k.
+Proof. unfold has_dotdot. rewrite normalize_canon. reflexivity. Qed.
